@@ -12,7 +12,10 @@ from decimal import Decimal
 
 from lib import gen2, monitors
 
+import re
+
 ID = 'C01'
+ADDR = re.compile(r'0x[0-9a-f]+')
 RULE = ('programs: (i) type-directed programs of G2 (all node kinds, lambdas driven by map/filter/reduce/sorted) extended with host probes emit(...), host callbacks hm(f, n) and '
         'try_(f, ...) (which swallows the error and lets the program continue); (ii) scoping scenarios with recursive and re-entrant lambdas; (iii) ast_names lambdas with '
         'multi-statement bodies; each on a plain parser and on one with a parse cache (the same text evaluated repeatedly). For every program: one unbounded run, then every budget '
@@ -67,7 +70,7 @@ def brief(v):
     except Exception:
         r = '?'
     if ' at 0x' in r:
-        r = 'callable'
+        r = ADDR.sub('0x', r)
     return r[:60]
 
 
@@ -110,6 +113,7 @@ def setup(ctx):
                 rec.first_abort = idx
     M1.on_enter, M1.on_exit, M1.on_raise = on_enter, on_exit, on_raise
     F = functions.FUNCTIONS
+    BUILTIN_NAMES[:] = sorted(F)
     for n in MUTATORS:
         orig = F[n]
 
@@ -158,6 +162,9 @@ EXTRA = ['emit(%s)', 'emit(%s, 1)', 'try_(%s, 1)', 'try_(%s, "a", 2)', 'hm(%s, 3
          'rec = n => 0 if n < 1 else emit(n) + rec(n - 1)\nrec(4)', 'loop = n => loop(n + 1)\ntry_(loop, 0)', 'loop2 = n => emit(n) + loop2(n + 1)\nloop2(0)']
 
 
+BUILTIN_NAMES = []
+
+
 def gen_case_program(r):
     kind = r.randrange(3)
     if kind == 0:
@@ -167,6 +174,11 @@ def gen_case_program(r):
         from checks.c10 import gen_program
         lines = gen_program(r)
         fns = [l.split(' = ')[0] for l in lines if ' => ' in l] or ['(v => v)']
+    if r.random() < 0.3:
+        # every table entry gets a program lambda as an argument (whether it calls it or not is the builtin's business; the budget covers it either way)
+        name = r.choice(BUILTIN_NAMES)
+        lines.append(r.choice(['%s([3, 1, 2], v => emit(v) + v)', '%s([3, 1, 2], (p, q) => emit(p))', 'emit(%s([1, 2, 3, 4], v => v > 2))', '[1, 2, 3] | %s(v => emit(v))',
+                               '%s("abc", v => emit(v))', '%s({"a": 1}, (k, v) => emit(k))', '%s([3, 1, 2], v => v == 2)']) % name)
     for _ in range(r.randint(1, 3)):
         t = r.choice(EXTRA)
         lines.insert(r.randint(0, len(lines)), t % r.choice(fns + ['(v => v + 1)', '(v => emit(v))']) if '%s' in t else t)
@@ -200,7 +212,7 @@ def one_run(ctx, P, src, names, ast_names, budget):
     except OpsExecutionLimitExceededError as e:
         out = ('ops', '')
     except ParserError as e:
-        out = ('perr', str(e)[:80])
+        out = ('perr', ADDR.sub('0x', str(e))[:80])
     except RecursionError:
         out = ('recursion', '')
     except Exception as e:
@@ -277,9 +289,21 @@ def run_case(case, ctx):
             cached = case[2]
             body = None
             seed = case[1]
+            if r.random() < 0.25:
+                # a helper lambda compiled by the host and supplied through ast_names: its body is part of this call's budget like any other node
+                body = r.choice(['p0 + 1', 'emit(p0)', '[p0, p0] | map(v => v * 2)', 't0 = p0 + 1\nt0 * 2', 'emit(p0) if p0 > 1 else p0'])
+                src = src + '\n' + r.choice(['map([1, 2, 3, 4, 5, 6, 7, 8, 9, 10, 11, 12, 13], af)', 'af(1)\naf(2)\naf(3)', 'emit(af(5))', 'hm(af, 6)', 'sorted([3, 1, 2], af)'])
         P = ctx.P1 if cached else ctx.P0
         ctx.M1.lambdas.clear()
-        unb = one_run(ctx, P, src, make_names(ctx, seed), None, UNBOUNDED)
+        ast = None
+        if body is not None:
+            from smartquery.ast_ops import LambdaOp, NameOp
+            try:
+                ast = {'af': LambdaOp(args=[NameOp('p0')], expr=P.parse(body))}
+            except Exception:
+                return
+            ctx.count('programs_with_ast_names')
+        unb = one_run(ctx, P, src, make_names(ctx, seed), ast, UNBOUNDED)
         if unb['outcome'][0] == 'recursion' or any(e[1] == 'try_caught' and e[2] == 'RecursionError' for e in unb['log']):
             ctx.count('programs_dropped(RecursionError)')
             return
@@ -299,7 +323,7 @@ def run_case(case, ctx):
         prev = None
         for N in budgets:
             ctx.evaluations += 1
-            run = one_run(ctx, P, src, make_names(ctx, seed), None, N)
+            run = one_run(ctx, P, src, make_names(ctx, seed), ast, N)
             n_eff = 100 if N is None else N
             ctx.count('budget_runs_compared')
             ctx.nontriv('%s|%s|%s' % (src, N, cached))
